@@ -11,6 +11,25 @@ from . import soocommon as SC
 from . import seqcommon as QC
 
 
+_VSTART = {}
+
+
+def validation_start(n):
+    """round at which StroquOOL's cross-validation begins for budget n (dry run on [0,1], the schedule is reward independent)"""
+    if n not in _VSTART:
+        from PyXAB.algos.StroquOOL import StroquOOL
+        a = StroquOOL(n=n, domain=[[0.0, 1.0]])
+        t0 = None
+        for t in range(1, n + 1):
+            a.pull(t)
+            if a.candidate and t0 is None:
+                t0 = t
+                break
+            a.receive_reward(t, 0.5)
+        _VSTART[n] = (t0, a.h_max)
+    return _VSTART[n]
+
+
 def stro_cfgs(tier, base_id):
     import random
     from .. import common as C
@@ -18,11 +37,14 @@ def stro_cfgs(tier, base_id):
     from . import partcommon as PC
     rnd = random.Random(C.seed() + 211)
     out = []
-    for i in range(12 if tier == "quick" else 80):
+    for i in range(18 if tier == "quick" else 90):
         kind, Kk = rnd.choice(A.PART_KINDS)
         D = rnd.choice([1, 1, 2]) if kind != "dbin" else 1
         n = rnd.choice([100, 300, 600, 1000]) if tier == "quick" else rnd.choice([100, 300, 1000, 2000, 3000])
-        out.append({"id": base_id + i, "algo": "StroquOOL", "kind": kind, "K": Kk, "D": D, "box": rnd.choice([b for b in PC.BOXES if len(b) == D]), "n": n, "T": n if i % 4 else n // 2, "prm": {},
+        t0, hm = validation_start(n)
+        inside = [t0 + 1, t0 + hm + 1, t0 + 2 * hm + 2] if t0 else [n]
+        T = [n, n // 2, min(n, inside[0]), min(n, inside[1]), min(n, inside[2]), n][i % 6]
+        out.append({"id": base_id + i, "algo": "StroquOOL", "kind": kind, "K": Kk, "D": D, "box": rnd.choice([b for b in PC.BOXES if len(b) == D]), "n": n, "T": T, "prm": {},
                     "pattern": rnd.choice(["g01", "peak", "tied", "gneg"]), "shift": rnd.choice([0, 0, -1]), "seed": rnd.randrange(1 << 30)})
     return out
 
